@@ -53,6 +53,12 @@ pub fn check_marks(g: &G, d: &Dump, v: &mut Vec<Violation>, labels: &mut Vec<Str
                 }
                 labels.push("int-operand".into());
             }
+            MK::NotInt => {
+                if let Some(t) = at.iter().find(|t| t.t == T::IntegerLiteral) {
+                    v.push(Violation::new("C13", "composite-operand-is-integer", format!("composite-operand-is-integer:{:?}", t.t), format!("digits glued to a macro variable reference are one operand with it, yet {:?} is an integer-literal token: {}", (t.b, t.e), ctx(src))));
+                }
+                labels.push("composite-operand".into());
+            }
             MK::Masked => {
                 let bad = at.iter().find(|t| matches!(t.t, T::COMMA | T::ASSIGN | T::SEMI | T::LPAREN | T::RPAREN));
                 if let Some(t) = bad {
